@@ -281,3 +281,25 @@ Example timely_example :
   timely 7 2000 None evs /\ outs_for 7 (snd (srun 2000 [] evs)) = [[1;2;3;4;5]]
   /\ outs_for 7 (snd (srun 1000 [] evs)) = [].
 Proof. cbn [timely]. vm_compute. repeat split; try reflexivity; try (intro H; discriminate H). Qed.
+
+(* ---------- a datagram for an OPEN buffer whose index lies beyond that buffer ---------- *)
+
+(* The buffer of a sequence number is sized by the FIRST datagram received for it.  A later
+   datagram with the same sequence number whose index is not below the buffer's size - whatever
+   max index that datagram itself announces - is discarded: nothing is handed up, slots and count
+   are untouched (only the deadline is re-armed).  (bad_index_no_output is the fresh-buffer case.) *)
+Theorem open_buffer_bad_index_discarded ex now (bs : buffers) d b :
+  lookup (d_seq d) bs = Some b -> N.of_nat (length (r_slots b)) <= d_idx d ->
+  receive_d ex now bs d = (insert (d_seq d) (mkR (r_cnt b) (r_slots b) (now + ex)) bs, None).
+Proof.
+  intros Hl Hi. unfold receive_d. rewrite Hl. cbn [r_cnt r_slots r_exp].
+  apply N.leb_le in Hi. now rewrite Hi.
+Qed.
+
+(* in particular for a hostile datagram that announces a LARGER max index than the buffer was opened with *)
+Example open_buffer_larger_max_example :
+  let ds := match split 2 7 [1;2;3;4;5] with Some ds => map encode_dgram ds | None => [] end in
+  let hostile := encode_dgram (mkD 7 9 5 [99]) in
+  map (option_map snd) (snd (srun 100 [] [Recv 0 (nth 0 ds []); Recv 1 hostile; Recv 2 (nth 2 ds []); Recv 3 (nth 1 ds [])]))
+  = [None; None; None; Some [1;2;3;4;5]].
+Proof. vm_compute. reflexivity. Qed.
